@@ -472,6 +472,17 @@ inline std::string exec_pattern(const Op& op, char& status) {
     static const OptStr none;
     return k < op.args.size() ? op.args[k] : none;
   };
+  // Independence from earlier constructions: the pattern under test is built right after an unrelated pattern with the
+  // SAME ignoreCase option, the "fresh" twin further down right after one with the OPPOSITE option. Options that leak from
+  // one construction into the next (through shared option objects, a cache, ...) make the two differ.
+  auto build_decoy = [&](bool decoy_ic) {
+    ada::url_pattern_options dopts{.ignore_case = decoy_ic};
+    ada::url_pattern_init di;
+    di.username = "Admin";
+    di.pathname = "/Decoy/:x";
+    (void)ada::parse_url_pattern<Provider>(di, nullptr, &dopts);
+  };
+  build_decoy(ic);
   tl::expected<ada::url_pattern<Provider>, ada::errors> pat = tl::unexpected(ada::errors::type_error);
   if (ptype == 0) {
     std::string_view ps = arg(0) ? std::string_view(*arg(0)) : std::string_view();
@@ -526,6 +537,7 @@ inline std::string exec_pattern(const Op& op, char& status) {
     const std::string_view* b2 = ibase ? &other_base : nullptr;
     auto again_other = pat->test(input, ibase ? b2 : &other_base);
     auto again_first = pat->test(input, ibase);
+    build_decoy(!ic);
     tl::expected<ada::url_pattern<Provider>, ada::errors> fresh = tl::unexpected(ada::errors::type_error);
     if (ptype == 0) fresh = ada::parse_url_pattern<Provider>(arg(0) ? std::string_view(*arg(0)) : std::string_view(), pbase, &opts);
     else fresh = ada::parse_url_pattern<Provider>(make_init(op.args, 0), nullptr, &opts);
@@ -541,6 +553,18 @@ inline std::string exec_pattern(const Op& op, char& status) {
   }
   if (e && e->has_value()) {
     auto& r = **e;
+    {
+      std::string ee;
+      ee += render_component("protocol", r.protocol);
+      ee += render_component("username", r.username);
+      ee += render_component("password", r.password);
+      ee += render_component("hostname", r.hostname);
+      ee += render_component("port", r.port);
+      ee += render_component("pathname", r.pathname);
+      ee += render_component("search", r.search);
+      ee += render_component("hash", r.hash);
+      add_num(o, "exec.digest", fnv1a(ee));
+    }
     o += "exec.inputs=" + std::to_string(r.inputs.size()) + "\x1f";
     o += render_component("protocol", r.protocol);
     o += render_component("username", r.username);
